@@ -1,16 +1,73 @@
 (** * C01 -- well-formed documents are accepted and yield the infoset they denote.
 
     Full statements (DESIGN 5.1) over the model of the implementation:
-      [parse_render : forall d c, valid d = true -> ok_choices d c = true ->
-                        merged (from_raw_model (render d c)) = Ok ([], denote d)].
-    [denote] does not take the choice oracle: independence of the result from the surface
-    choices holds by construction, the content of the property is that the implementation
-    agrees with [denote] on every rendering. *)
+
+      parse_render : forall d c, valid d = true -> ok_choices d c = true ->
+                       merged (from_raw_model (render d c)) = Ok ([], denote d)
+      render_wf    : forall d c, valid d = true -> ok_choices d c = true -> wf (render d c) = true
+
+    [denote] does not take the choice oracle: independence of the denoted infoset from the
+    surface choices holds by construction; every oracle is admissible ([all_choices_ok]).
+
+    Proved here (closed, for every oracle, every string / continuation): the LEXICAL RUNG.
+    (a) the renderings of comments, PIs and character references of Spec/Infoset.v are read back by
+        the recognisers of Spec/XmlWF.v ([render_*_wf], [char_ref_roundtrip]);
+    (b) what the specification recognises, the REGENERATED grammar of the real parser accepts with the
+        same rest ([*_complete]);
+    (c) hence the real productions accept every rendering ([parser_accepts_rendered_*]).
+    Not proved: the element / attribute / content rung and the DTD rung of [render_wf] and
+    [parse_render] (named [render_wf_partial], [parse_render_partial] in notes/wf_STATUS.md); they are
+    covered by checks/C01.py, which evaluates wf (render d c) and
+    infoset_of_string (render d c) = denote d with the extracted functions on every generated case,
+    compares with the real crates, and cross-checks the specification against expat. *)
 From Coq Require Import List NArith Bool.
-From XmlRs Require Import Base.CPred Spec.XmlChars Spec.XmlWF Spec.Infoset.
+From XmlRs Require Import Base.CPred Spec.XmlChars Spec.XmlWF Spec.Infoset Model.Peg Gen.GrammarXmlGen
+  Proofs.NameLanguage Proofs.XmlWFLexical Proofs.XmlWFRender.
 Import ListNotations.
 
 (** every oracle is an admissible choice of surface forms *)
 Theorem all_choices_ok : forall d c, ok_choices d c = true.
 Proof. reflexivity. Qed.
+
+(** ** (a) *)
+Theorem render_comment_is_comment : forall s rest, comment_ok s = true ->
+  spec_comment (render_comment s ++ rest) = Some rest.
+Proof. exact render_comment_wf. Qed.
+
+Theorem render_pi_is_pi : forall c p t d rest, pi_ok t d = true ->
+  spec_pi (render_pi c p t d ++ rest) = Some rest.
+Proof. exact render_pi_wf. Qed.
+
+Theorem char_ref_reads_back : forall k ch rest, (ch < 100000000)%N ->
+  p_ref (tl (char_ref k ch) ++ rest) = Some (RChar ch, rest).
+Proof. exact char_ref_roundtrip. Qed.
+
+(** ** (b) *)
+Theorem comment_complete : forall s r, spec_comment s = Some r -> rest_of (run G_xml R nt_comment s) = Some r.
+Proof. intros s r H. now rewrite comment_language. Qed.
+Theorem cdsect_complete : forall s r, spec_cdsect s = Some r -> rest_of (run G_xml R nt_cdsect s) = Some r.
+Proof. intros s r H. now rewrite cdsect_language. Qed.
+Theorem pi_complete : forall s r, spec_pi s = Some r -> rest_of (run G_xml R nt_pi s) = Some r.
+Proof. exact XmlWFLexical.pi_complete. Qed.
+Theorem chardata_complete : forall s, rest_of (run G_xml R nt_char_data s) = Some (spec_chardata s).
+Proof. exact char_data_language. Qed.
+
+(** ** (c) the real parser's productions accept the renderings *)
+Theorem parser_accepts_rendered_comment : forall s rest, comment_ok s = true ->
+  rest_of (run G_xml R nt_comment (render_comment s ++ rest)) = Some rest.
+Proof. intros s rest H. apply comment_complete, render_comment_wf, H. Qed.
+
+Theorem parser_accepts_rendered_pi : forall c p t d rest, pi_ok t d = true ->
+  rest_of (run G_xml R nt_pi (render_pi c p t d ++ rest)) = Some rest.
+Proof. intros c p t d rest H. apply pi_complete, render_pi_wf, H. Qed.
+
+Example rendered_nontrivial :
+  comment_ok [32;97;45;98;32]%N = true /\ pi_ok [112;105]%N (Some [120;63;32;62]%N) = true.
+Proof. split; vm_compute; reflexivity. Qed.
+
 Print Assumptions all_choices_ok.
+Print Assumptions render_comment_is_comment.
+Print Assumptions render_pi_is_pi.
+Print Assumptions char_ref_reads_back.
+Print Assumptions parser_accepts_rendered_comment.
+Print Assumptions parser_accepts_rendered_pi.
